@@ -94,7 +94,7 @@ Qed.
 
 Lemma fits_chk_ty o d : lim_ok o -> forall t v, is_none (chk_ty t o d v) = fits_ty t o d v.
 Proof.
-  intros Hl. induction t as [k| | |t IH|fs IH|w vals|w b] using ty_ind'; intros v.
+  intros Hl. induction t as [k| | |t IH|fs IH|w vals|w b|w vals dflt] using ty_ind'; intros v.
   - destruct v; try reflexivity. apply fits_chk_scalar, Hl.
   - destruct v; try reflexivity. apply fits_chk_variant, Hl.
   - destruct v; try reflexivity. unfold chk_ty, chk_dv. cbn [fst snd]. apply fits_chk_variant, Hl.
@@ -110,6 +110,7 @@ Proof.
     change (chk_go o d (f :: fs) (x :: vs)) with (seq_chk (chk_ty f o d x) (chk_go o d fs vs)).
     change (fits_go o d (f :: fs) (x :: vs)) with (fits_ty f o d x && fits_go o d fs vs).
     rewrite is_none_seq, Hf, IHfs. reflexivity.
+  - destruct v; reflexivity.
   - destruct v; reflexivity.
   - destruct v; reflexivity.
 Qed.
